@@ -649,6 +649,22 @@ func (e *engine) transition(b Builder, src Model, path []*Call, c *Call, exp Exp
 			f = g
 		}
 	}
+	if f != nil && strings.HasPrefix(f.sig, "compile-error-not-sticky") && c.IsCompile() {
+		// a rejected Compile followed by nothing but the same Compile call again: the construction is unchanged, so "the
+		// same outcome on every attempt" applies literally, whatever one thinks about stickiness
+		onlyCompiles := true
+		for i := exp.DeadPos + 1; i < len(seq); i++ {
+			if !seq[i].IsCompile() || seq[i].Name != seq[exp.DeadPos].Name {
+				onlyCompiles = false // another call, or a Compile with other options
+			}
+		}
+		if onlyCompiles && exp.DeadPos < len(seq)-1 {
+			f = &finding{
+				sig: "compile-retry-accepted:" + strings.SplitN(f.sig, ":", 2)[1],
+				msg: "Compile rejects the construction, a repeated Compile of the unchanged construction accepts it | " + f.msg,
+			}
+		}
+	}
 	if f != nil && (strings.HasPrefix(f.sig, "compile-error-not-sticky") || strings.HasPrefix(f.sig, "nondeterministic-error-text")) {
 		// Not judged. (a) The sticky first error of the statement is the build error set by Add* calls; whether
 		// a Compile-time rejection (missing entry/exit edge, invalid option) must poison later calls is not
@@ -750,6 +766,17 @@ func (e *engine) expand(b Builder, nd *bfsNode) {
 		if hung {
 			e.c.Res.Capped, e.c.Res.CapReason = true, "worker stopped after a runnable hung"
 			return
+		}
+		// at the depth bound: every Compile is retried once more (one call beyond the bound), so that "the same
+		// outcome on every attempt" is also checked for the deepest constructions
+		if c.IsCompile() && len(nd.path)+1 >= b.MaxLen(e.c.Quick()) {
+			p2 := append(append([]*Call{}, nd.path...), c)
+			if _, exp2, ok2 := nx.Step(c); ok2 {
+				if f := e.transition(b, nx, p2, c, exp2, e.attemptsFor(c)); f != nil {
+					e.report(b, append(p2, c), f)
+				}
+				e.c.Count("compile_retries_beyond_the_depth_bound", 1)
+			}
 		}
 	}
 }
